@@ -70,11 +70,13 @@ CLAIMED = {
     'C11': ('A', 'model_checking',
             'bounded-exhaustive enumeration of window combinations over ROW/COL/LAY/TSTEP on the real IOAPI slicer vs independent origin/level/calendar arithmetic',
             'Every IOAPI file of the universe (shapes up to 3x3x3x3, start instants crossing year end, leap day and '
-            'midnight, TSTEP 30 min / 1 h / 24 h / 100 h) x every combination of contiguous windows given as positive '
-            'int, negative int or any unit-stride slice spelling over 1-2 (quick) / 1-4 (thorough) dimensions: XORIG/'
-            'YORIG must move by first-index x cell size exactly, VGLVLS must be the bit-identical sub-range, decoded '
-            'times must be the sub-range of independently computed instants, SDATE/STIME the first of them, TSTEP '
-            'unchanged.',
+            'midnight, TSTEP 7.5 min / 30 min / 1 h / 24 h / 100 h, unevenly spaced flags, sources with a hand-added '
+            'variable or without TFLAG) x every combination of contiguous windows given as positive int, negative '
+            'int, numpy integer or any unit-stride slice spelling (incl. a negative start beyond the first cell) over '
+            '1-2 (quick) / 1-4 (thorough) dimensions, plus strided TSTEP windows: XORIG/YORIG must move by first-index '
+            'x cell size exactly (and not be shared with the source), VGLVLS must be the bit-identical sub-range, '
+            'decoded times must be the sub-range of independently computed instants, SDATE/STIME the first of them, '
+            'TSTEP unchanged (stride x step for a strided window).',
             'dyadic cell sizes (exact float arithmetic); calendar arithmetic in mc/ref/rtime.py is independent of the library',
             'DESIGN.md section 4 C11'),
     'C12': ('A', 'model_checking',
@@ -83,7 +85,8 @@ CLAIMED = {
             'numeric offsets) x 4/6 reference instants x 8 calendars x {12-offset vector, single value, explicit '
             'time_bounds, approximated bounds}; decode must equal exact Fraction arithmetic in the calendar, and '
             'date2num/time2idx must invert it. IOAPI: every day of 4/7 years x 6 times of day as TFLAG and as '
-            'SDATE/STIME attributes; 6 start instants x 6 TSTEP values (1 s .. 168 h) x 1-3 steps through '
+            'SDATE/STIME attributes; 7 start instants (incl. one beyond 19 Jan 2038) x 6 TSTEP values (1 s .. 168 h) x '
+            '1-3 steps through '
             'ioapi_base/updatetflag and through CF time synthesised from TFLAG and from attributes, incl. bounds.',
             'a raise is an accepted outcome; cftime is a second reference only where it parses the unit string',
             'DESIGN.md section 4 C12'),
@@ -133,7 +136,9 @@ CLAIMED = {
             'bounded-exhaustive enumeration of small ICARTT tables/headers written by the real writer, parsed by an independent parser and re-read by the real reader',
             'Every (1-3 records, 1-3 dependent variables, rotation of a 6-value magnitude alphabet 1e-30..1e30, 4 '
             'missing codes, 3 mask patterns, 8 header-comment subsets, independent-variable units given/omitted, '
-            'source built by hand with missing_value / with fill value only / read from independently rendered text): '
+            'source built by hand with missing_value / with fill value only / read from independently rendered text; '
+            'one missing code for all variables or one per variable; source variables with a scale attribute; 99-101+ '
+            'header lines; integer time column): '
             'the written text is parsed by an independent FFI-1001 parser (declared header-line and variable counts '
             '== actual), re-read by ffi1001 and by auto-detection (names/order, units, missing codes, masks, values '
             'to 7 significant digits) and a second write/read cycle must change no data.',
@@ -148,7 +153,8 @@ CLAIMED = {
             'Reference-encoded lat/lon ARL files (1-3 times crossing a year, 1-2 levels with 6-significant-character '
             'heights, 1-2 surface/upper variables, 3 field patterns) are read by arlpackedbit (variables, levels, '
             'times, fields, auto-detection) and re-written by writearlpackedbit, whose output is decoded by an '
-            'independent reader.',
+            'independent reader; levels below 0.1, per-level variable lists, grids of 1000+ points and surface '
+            'fields whose exponent changes between time records included.',
             'serial reference with float32 emulation; projected grids (pyproj) out of scope', 'DESIGN.md section 4 C20'),
     'C08': ('A', 'model_checking',
             'bounded-exhaustive enumeration of generated CAMx files through read/write/read/write on the real code',
@@ -177,7 +183,8 @@ CLAIMED = {
             'memory-mapped and the record reader on the same path; a file whose constructor raises in either reader '
             'is outside the quantifier; the dimensions both expose are compared as soon as both constructors have '
             'returned, then the common variables bit for bit (up to length-1 axes); the same path is then rewritten '
-            'with a sibling file and both readers are opened again; a 5 s watchdog turns non-termination into a violation.',
+            'with a sibling file and both readers are opened again; species lists incl. names that are prefixes of '
+            'earlier ones; a 5 s watchdog turns non-termination into a violation.',
             'only what both readers define is compared (record readers define no TFLAG); the deprecated '
             'calendar arithmetic of the record readers is listed as known findings KF-C13-5..9', 'DESIGN.md section 4 C13'),
     'C14': ('D', 'fault_enumeration',
@@ -198,19 +205,24 @@ CLAIMED = {
             'Every (1-3 time blocks, 1-2 categories, 1-2 tracers each, 4 per-tracer layer patterns, 3 nested-grid '
             'offsets incl. a vertical one, complete / incomplete tracerinfo) is reference-encoded with its tables: '
             'unscaled read bit-identical and its rewrite byte-identical; scaled read = raw x table scale with the '
-            'table unit; scaled write/read preserves data, tau0/tau1, category/tracer ids, offsets and grid header, '
-            'leaves the source object unchanged (also for an in-memory copy) and is repeatable; bpch2 must present '
-            'the same data as bpch1.',
+            'table unit; time/time_bounds/tau0/tau1 equal the block headers and the category/tracerid attributes the '
+            'header identifiers for both readers and for the written file; scaled write/read preserves data, '
+            'category/tracer ids, offsets and grid header, leaves the source object unchanged (also for an in-memory '
+            'copy) and is repeatable; bpch2 must present the same data as bpch1 and its unscaled read written back '
+            'must reproduce the bytes; the master class bpch(...) must equal the reader it delegates to. Sub-hourly '
+            'and instantaneous blocks, 4 header-flag combinations.',
             'bpch layout of DESIGN Appendix A (sample reproduced byte for byte); scaled data to 1e-6 relative',
             'DESIGN.md section 4 C18'),
     'C15': ('B-fork', 'model_checking',
             'exhaustive enumeration of open histories, each executed in a freshly forked pristine process, with every pool file probed after each history',
-            'Pool of 31 files: every self-describing format (uamiv, lateral_boundary, ICARTT incl. DOS line endings '
+            'Pool of 35 files: every self-describing format (uamiv, lateral_boundary, ICARTT incl. DOS line endings '
             'and trailing blanks, netCDF3, netCDF4, IOAPI-netCDF, ARL, bpch) plus the indistinguishable '
-            'vertical_diffusivity/humidity pair, an unrecognised file and 3-byte files with recognisable extensions, '
+            'vertical_diffusivity/humidity pair, a 2-D uamiv file with header nz=0, two files of a reader family the '
+            'user defines during the history, an unrecognised file and 3-byte files with recognisable extensions, '
             'each with its extension and extension-less, plus one path whose content changes. History alphabet: an '
             'auto-detecting open of every pool file, 9 opens with an explicitly named format, re-registration of 3 '
-            'registered readers (43 events). Every history of length 0..2 (quick) / 0..3 (thorough; the reduced '
+            'registered readers, definition of a new reader family by subclassing (histories containing it are judged '
+            'against the history holding only the definition). Every history of length 0..2 (quick) / 0..3 (thorough; the reduced '
             '24-event alphabet at the depth bound) runs in a forked child of a pristine parent; afterwards every pool '
             'file is probed in both orders: selected reader (or exception type), dimensions and a hash of all '
             'variable data must equal the fresh-process result and the registry must be unchanged; auto-detected '
